@@ -71,7 +71,7 @@ def scan_predicate_compiles(ctx):
     return ctx.scanpred
 
 
-def prepare(ctx, cases, per_group=4):
+def prepare(ctx, cases, per_group=2):
     """one harness binary per group of template configurations (compiled in parallel)"""
     keys = sorted(set(key_of(c) for c in cases))
     groups = []
